@@ -27,7 +27,7 @@ NoCrash == [panic |-> FALSE]
 \* (*IKEMessage).Encode on an encodable message: C05 direction 1 says the octets are a well-formed RFC 7296
 \* datagram with zero reserved bits which the reference parser maps back to m.  For a value of the library's
 \* domain that leaves exactly one octet string, EncMsg(m) (transforms are emitted grouped by container).
-ExpectEncode(m) == [panic |-> FALSE, err |-> FALSE, wire |-> EncMsg(Norm(m))]
+ExpectEncode(m) == [panic |-> FALSE, err |-> FALSE, wire |-> EncMsg(Norm(m)), junkok |-> TRUE]
 
 \* a well-formed datagram judged on its own octets (C05 direction 1, used by the trace specification)
 WellFormedFor(wire, m) ==
